@@ -3,6 +3,8 @@ package main
 import (
 	"bytes"
 	"context"
+	"errors"
+	"sync/atomic"
 	"fmt"
 	"net"
 	"runtime"
@@ -272,3 +274,52 @@ func refSHA1(b []byte) [20]byte { return ref.SHA1(b) }
 func krpcInt(id [20]byte) int160.T { return int160.FromByteArray(id) }
 
 func refSecure(id [20]byte, ip net.IP) [20]byte { return ref.Bep42Secure(id, ip) }
+
+
+// flakyStore fails the next Get when armed.
+type flakyStore struct {
+	inner *bep44.Memory
+	fail  atomic.Bool
+}
+
+var errFlaky = errors.New("verif: transient store failure")
+
+func (f *flakyStore) Put(i *bep44.Item) error { return f.inner.Put(i) }
+func (f *flakyStore) Del(t bep44.Target) error { return f.inner.Del(t) }
+func (f *flakyStore) Get(t bep44.Target) (*bep44.Item, error) {
+	if f.fail.CompareAndSwap(true, false) {
+		return nil, errFlaky
+	}
+	return f.inner.Get(t)
+}
+
+// c13faults: a put during which the store's Get fails must not be treated as "nothing stored".
+func c13faults(c *evid.Ctx) {
+	r := c.R.Fork("faults")
+	n := c.Scale(200, 8000)
+	for i := 0; i < n && c.NumViolations() < 20; i++ {
+		pub, priv := edKey(r)
+		key := c13key{pub, priv, nil}
+		fs := &flakyStore{inner: bep44.NewMemory()}
+		w := bep44.NewWrapper(fs, 2*time.Hour)
+		hi := int64(r.Range(2, 9))
+		if err := w.Put(key.item(regPut{seq: hi, v: "current"})); err != nil {
+			c.Violation("valid-put-rejected", err.Error(), nil)
+			continue
+		}
+		p := regPut{seq: int64(r.Range(0, int(hi))), v: gen.Pick(r, []string{"current", "older"}), cas: gen.Pick(r, []int64{0, 1})}
+		fs.fail.Store(true)
+		err := w.Put(key.item(p))
+		it, gerr := w.Get(key.target())
+		c.Eval(1)
+		c.Count("puts during a transient store failure judged", 1)
+		c.Distinct(gen.Hash64("flaky", hi, p.seq, p.v, p.cas))
+		if gerr != nil || it.Seq != hi || fmt.Sprint(it.V) != "current" {
+			got := "nothing"
+			if gerr == nil {
+				got = fmt.Sprintf("seq=%d v=%v", it.Seq, it.V)
+			}
+			c.Violation("stored-seq-decreased-after-store-failure", fmt.Sprintf("stored seq %d; the store's Get failed once during a put of seq %d (returned %v); a get now returns %s", hi, p.seq, err, got), nil)
+		}
+	}
+}
